@@ -473,6 +473,52 @@ func suiteV06conc(c *vctx) {
 		}(w)
 	}
 	wg.Wait()
+	// password checks in flight at the same time: correct logins of one user beside logins of the
+	// administrator with a WRONG password and updates of a user with a wrong OLD password — each request
+	// gets its OWN verdict (no token, no change for the wrong ones; a token for every right one)
+	{
+		pre2 := dirDigest(a.dirPath)
+		stop2 := time.Now().Add(dur)
+		var wg2 sync.WaitGroup
+		var wrongAccepted, rightRefused, n2 int64
+		for w := 0; w < 8; w++ {
+			wg2.Add(3)
+			go func() {
+				defer wg2.Done()
+				for time.Now().Before(stop2) {
+					code, body := call("authenticate", map[string]interface{}{"username": "carol", "password": "Carol-Passw0rd"})
+					atomic.AddInt64(&n2, 1)
+					if code != 200 || !strings.Contains(body, "\"carol\"") {
+						atomic.AddInt64(&rightRefused, 1)
+					}
+				}
+			}()
+			go func() {
+				defer wg2.Done()
+				for time.Now().Before(stop2) {
+					code, body := call("authenticate", map[string]interface{}{"username": "admin", "password": "Wrong-Passw0rd"})
+					atomic.AddInt64(&n2, 1)
+					if code == 200 || strings.Contains(body, "session") {
+						atomic.AddInt64(&wrongAccepted, 1)
+					}
+				}
+			}()
+			go func() {
+				defer wg2.Done()
+				for time.Now().Before(stop2) {
+					code, _ := call("update", map[string]interface{}{"username": "anna", "oldpassword": "Wrong-Old-Passw0rd", "newpassword": "Taken-Over-Passw0rd"})
+					atomic.AddInt64(&n2, 1)
+					if code == 200 {
+						atomic.AddInt64(&wrongAccepted, 1)
+					}
+				}
+			}()
+		}
+		wg2.Wait()
+		c.emit(fmt.Sprintf("law.C06.token_only_after_password_auth concurrent requests=%d wrong-accepted=%d", n2, wrongAccepted), vtf(wrongAccepted == 0))
+		c.emit(fmt.Sprintf("law.C06.right_password_accepted_under_concurrency refused=%d", rightRefused), vtf(rightRefused == 0))
+		c.emit("law.C06.refused_requests_leave_store_unchanged concurrent-passwords", vtf(dirDigest(a.dirPath) == pre2))
+	}
 	why, _ := first.Load().(string)
 	c.emit(fmt.Sprintf("law.C06.management_effect_requires_admin_session concurrent requests=%d accepted=%d %s", total, bad, vxs(why)), vtf(bad == 0))
 	c.emit("law.C06.refused_requests_leave_store_unchanged concurrent", vtf(dirDigest(a.dirPath) == pre))
